@@ -109,10 +109,14 @@ def gen_case(ctx, k):
     ns = len(net["species"])
     if ns >= 3 and rng.random() < 0.3:
         # a chemostated species declared BEFORE the reacting ones
-        net["species"][0]["chstt"] = True
+        for s in net["species"]:
+            s.pop("chstt", None)
+        q = rng.choice([0, 1, 1])
+        net["species"][q]["chstt"] = True
         labs = [s["label"] for s in net["species"]]
-        net["reactions"] = [{"eq": "%s -> %s" % (labs[1], labs[2]), "k+": 1.0, "k-": 0.25},
-                            {"eq": "%s + %s -> %s" % (labs[0], labs[1], labs[2]), "k+": 0.5, "k-": 0}][:rng.randint(1, 2)]
+        o1, o2 = [x for x in range(3) if x != q]
+        net["reactions"] = [{"eq": "%s -> %s" % (labs[o1], labs[o2]), "k+": 1.0, "k-": 0.25},
+                            {"eq": "%s + %s -> %s" % (labs[q], labs[o1], labs[o2]), "k+": 0.5, "k-": 0}][:rng.randint(1, 2)]
     state = [float(rng.choice([0, 1, 2, 3, 5, 8])) for _ in range(ns * n)]
     return {"net": net, "space": space, "kind": kind, "seed": rng.randint(0, 2 ** 31 - 1), "state": state, "tmax": 1e9,
             "edge": info["edge"] if kind == "grid" else list(info["edge"])}
